@@ -69,6 +69,27 @@ Proof.
   - exact (c12_checker_verdict_pf kv v tbl tiers profs p Hfrag Hpk Hv).
 Qed.
 
+(* the oracle of the correspondence run accepts every run of the four models on the common fragment *)
+Lemma c12_model_meets_spec_pf : forall kv v tbl tiers profs p
+    ci ei eci name_i mt_i mp_i fi cn en ecn name_n mt_n mp_n fn kind bs nm nnm,
+  state_in_fragment kv v tbl tiers profs = true -> packet_in_fragment p = true -> pk_ver p = v ->
+  wf_packet p -> pk_ct p = CtNew ->
+  ipt_hyps ci ei eci v name_i mt_i mp_i tbl tiers profs p ->
+  ipt_hyps cn en ecn v name_n mt_n mp_n tbl tiers profs p ->
+  bpf_hyps v tbl kind bs (bpf_rules nm nnm tiers profs) p ->
+  ok_agree (vd_of_ref (ref_verdict v tbl tiers profs p))
+    (ipt_vd ci (Ipt.run_chain (3 + fi) (render_endpoint eci ci v name_i mt_i mp_i) ei name_i p))
+    (ipt_vd cn (Ipt.run_chain (3 + fn) (render_endpoint ecn cn v name_n mt_n mp_n) en name_n p))
+    (bpf_model_vd v (bpf_rules nm nnm tiers profs) bs (pstate_of p))
+    (chk_vd (chk_endpoint kv tbl tiers profs p)) = true.
+Proof.
+  intros kv v tbl tiers profs p ci ei eci name_i mt_i mp_i fi cn en ecn name_n mt_n mp_n fn kind bs nm nnm
+         Hfrag Hpk Hv Hwf Hct Hi Hn Hb.
+  destruct (c12_agree_pf kv v tbl tiers profs p ci ei eci name_i mt_i mp_i fi cn en ecn name_n mt_n mp_n fn kind bs nm nnm
+              Hfrag Hpk Hv Hwf Hct Hi Hn Hb) as (H1 & H2 & H3 & H4).
+  rewrite H1, H2, H3, H4. destruct (vd_of_ref (ref_verdict v tbl tiers profs p)); reflexivity.
+Qed.
+
 (* all four pairwise equal: the form of the property text *)
 Lemma c12_agree_pairwise_pf : forall (a b c d r : vd), a = r /\ b = r /\ c = r /\ d = r -> a = b /\ b = c /\ c = d.
 Proof. intros a b c d r (-> & -> & -> & ->). repeat split. Qed.
